@@ -815,7 +815,7 @@ def write_queries(tier, version, prefix):
                     bounds={"writer": WFN_NAMES[wfn], "value text": "%d symbolic code units over the CIF %s value characters (no CR)%s" % (k + tail, "2.0" if version == 2 else "1.1", ", then %d concrete 'a'%s" % (fill, ", then %d symbolic" % tail if tail else "") if fill else ""),
                             "start column": "0..%d symbolic" % WL, "CIF_LINE_LENGTH": WL},
                     note="presentation writer (arguments assumed to meet oracles/writer_contract.h) -> in-memory sink -> reference scanner (+ text-field decoder)"))
-    for (k, fill) in (((1, 0), (2, 0), (3, 0), (4, 0), (1, 15)) if tier == "quick" else ((1, 0), (2, 0), (3, 0), (4, 0), (5, 0), (6, 0), (1, 15), (2, 15), (2, 22))):
+    for (k, fill) in (((1, 0), (2, 0), (3, 0), (4, 0), (1, 15)) if tier == "quick" else ((1, 0), (2, 0), (3, 0), (4, 0), (5, 0), (6, 0), (1, 15), (2, 15))):      # (2, 22): SAT conversion out of memory at 10 GB
         WL = 16 if fill else 20
         n = k + fill + (1 if fill else 0)
         qs.append(Q("%s_dispatch_K%d%s" % (prefix, k, "_F%d" % fill if fill else ""), "h02_dispatch.c", defs={"KLEN": k, "FILL": fill, "WVERSION": version, "CIF_API_VERIF_LINE_LENGTH": WL},
@@ -839,7 +839,7 @@ def write_queries(tier, version, prefix):
                     note="fold points: continuation never starts with ';' unless prefixed, no split surrogate pair, physical line within the limit"))
     if version == 2:
         # composite values: real write_item / write_list / write_table / write_numb with the leaf writer stubbed by its shown behaviour
-        shapes = {0: "[ ]", 1: "[ a b ]", 2: "[ [ a ] ? . 1.5 ]", 3: "{ 'k':a }", 4: "{ 'k':1.5 }", 5: "{ 'k':{ 'q2':a } }", 6: "{ 'k':[ a ] }", 7: "{ 'k':? }", 8: "[ { 'k':a } b ]", 9: "1.5"}
+        shapes = {0: "[ ]", 1: "[ a b ]", 2: "[ [ a ] ? . 1.5 ]", 3: "{ 'k':a }", 4: "{ 'k':1.5 }", 5: "{ 'k':{ 'q2':a } }", 6: "{ 'k':[ a ] }", 7: "{ 'k':? }", 8: "[ { 'k':a } b ]", 9: "1.5"}   # 5 and 6 are skipped below
         # (element length, key length, line limit): long leaves at limit 20; key-length boundaries at limit 8 (long keys make the
         # normalisation of the key during the build of the table dominate: key of 12 at limit 20 gave no verdict in 600 s)
         lens = [(2, 2, 20), (17, 2, 20), (2, 3, 8), (2, 4, 8)] if tier == "quick" else [(2, 2, 20), (17, 2, 20), (20, 2, 20), (2, 2, 8), (2, 3, 8), (2, 4, 8), (2, 5, 8), (5, 3, 8)]
@@ -849,8 +849,8 @@ def write_queries(tier, version, prefix):
                     continue
                 if sh in (0, 1, 2, 9) and (kl != 2 or WL != 20):
                     continue
-                if sh in (5, 6) and tier == "quick":
-                    continue            # nested composite inside a table: ~10 min each, thorough only
+                if sh in (5, 6):
+                    continue            # a table or list nested inside a table: engine error / no verdict after 15-20 min in either tier - not claimed
                 if sh == 8 and WL != 20:
                     continue
                 sm = desc.count("a") * el + desc.count("b") * el + desc.count("'k'") * (kl + 3) + 3 * len(desc.split()) + 16
